@@ -17,7 +17,7 @@
 (* the ledger is the property: LedgerOf(best) computed from scratch.              *)
 EXTENDS Integers, Sequences, FiniteSets, TLC
 
-CONSTANTS MaxBlocks, MaxHeight, MaxCalls, MaxPlace, MaxSubmit, VoteLock, Bads,
+CONSTANTS MaxBlocks, MaxHeight, MaxCalls, MaxPlace, MaxSubmit, VoteLock, LockStep, VoteLock2, Bads,
           MenuOn    \* the menu transactions the environment uses in this configuration
 
 H0 == 14
@@ -62,10 +62,13 @@ InsertAt(q, i, x) == SubSeq(q, 1, i) \o <<x>> \o SubSeq(q, i + 1, Len(q))
 (* The ledger as a function of a chain: applying the blocks from the prefix tip *)
 Led0 == [c \in Coins |-> IF c \in DOMAIN PrefixHeight THEN [st |-> "unspent", h |-> PrefixHeight[c]]
                                                       ELSE [st |-> "none", h |-> 0]]
+(* the vote lock is a table over heights (consensus: VotePendingBlockNums), read at the height of the SPENDING block: *)
+(* VoteLock blocks below absolute height LockStep, VoteLock2 from there on                                           *)
+LockAt(H) == IF H < LockStep THEN VoteLock ELSE VoteLock2
 Spendable(L, c, H) ==
   /\ L[c].st = "unspent"
   /\ KindOf(c) = "coinbase" => L[c].h + CbMaturity <= H
-  /\ KindOf(c) = "vote" => L[c].h + VoteLock <= H
+  /\ KindOf(c) = "vote" => L[c].h + LockAt(H) <= H
 
 RECURSIVE ApplyTxs(_, _, _)
 ApplyTxs(R, txs, H) ==      \* R = [ok, L, C]; C = contract table: name -> registering tx (0 = none)
